@@ -1,6 +1,7 @@
 /-
   C09 — On-disk format matches the documented layout and stays readable.
 -/
+import RaftWal.Generated.WalLogic
 import RaftWal.Proofs.SegmentL1
 import RaftWal.Generated.Layout
 import RaftWal.Generated.Consts
@@ -86,5 +87,9 @@ theorem fileName_eq_spec (base id : Nat) (hb : base < 2^64) (hi : id < 2^64) :
 /-- frames are 8-byte aligned: every encoded frame size is a multiple of 8 -/
 theorem frames_aligned (n : Nat) : encodedFrameSize n % 8 = 0 := by
   unfold encodedFrameSize padLen frameHeaderLen; omega
+
+/-- StoreLogs and DeleteRange — every kind of DeleteRange — wait for a queued rotation after taking the write lock and
+    before they look at the state (read from the source on every run): no call runs between a sealing append and its rotation -/
+theorem writers_wait_for_queued_rotation : Generated.writersAwaitRotationFirst = true := by decide
 
 end RaftWal.C09
